@@ -13,11 +13,11 @@ def reproduces(reads, meta, key):
     harness.reset_transport_globals()
     async def go(loop):
         with clocks_patched(entity_dt=(meta["stack"] == "port")):
-            rig = Rig(loop, ctx, meta["stack"], meta["eavesdrop"])
+            rig = Rig(loop, ctx, meta["stack"], meta["eavesdrop"], lists=meta.get("lists"))
             await rig.start()
             for r in reads:
                 if len(r) == 2:
-                    await c16.feed_double(loop, rig, r[0][1], r[1][1])
+                    await c16.feed_double(loop, rig, r[0][1], r[1][1], r[1][0])
                 else:
                     await rig.feed(*r[0])
             cfg = {"disable_discovery": True, "enable_eavesdrop": meta["eavesdrop"]}
